@@ -1,12 +1,13 @@
 (* Frame property of a suspended query (cursor): if everything the cursor holds is over its own set of
    cells P and the heap is closed for P, then resuming it on the shared heap and resuming it on the
-   heap restricted to P give the same cursor, the same answer, the same atoms; the bindings of all
-   other cells stay exactly where they are.  Consequence: two cursors over disjoint sets of cells,
-   advanced in any interleaving, each produce their stand-alone answers (same_engine_disjoint). *)
+   heap restricted to P give the same cursor, the same answer, the same access log (atoms) and the same new
+   fact store (clause bodies may assert / retract); the bindings of all other cells stay exactly where they
+   are.  Proved for one step of the frame machine (sstep_frame) and lifted to search / cnext.  Consequence
+   (Engine/Slots.v): cursors over disjoint sets of cells influence each other through the fact store only. *)
 From Coq Require Import String.
 From Coq Require Import List Arith Bool Lia ZArith.
 Import ListNotations.
-From YP Require Import Base.Str Term.Term Unify.Unify Engine.Deref Engine.Frame Engine.World.
+From YP Require Import Base.Str Term.Term Unify.Unify Engine.Deref Engine.Frame Engine.Db Engine.World.
 Set Implicit Arguments.
 
 Lemma strip_app (a h : store) : strip (a ++ h) h = a.
@@ -37,7 +38,8 @@ Inductive fgood : frame -> Prop :=
 | FG1 tr cnt gs : good P tr -> Forall gin gs -> fgood (FGoals tr cnt gs)
 | FG2 tr cnt args f rest : good P tr -> Forall (tin P) args -> Forall gin rest -> fgood (FFact tr cnt args f rest)
 | FG3 tr cnt fn args rest : good P tr -> Forall (tin P) args -> Forall gin rest -> fgood (FFun tr cnt fn args rest)
-| FG4 tr cnt args cl rest : good P tr -> Forall (tin P) args -> Forall gin rest -> fgood (FClause tr cnt args cl rest).
+| FG4 tr cnt args cl rest : good P tr -> Forall (tin P) args -> Forall gin rest -> fgood (FClause tr cnt args cl rest)
+| FG5 tr cnt nm args f rest : good P tr -> Forall (tin P) args -> Forall gin rest -> fgood (FRet tr cnt nm args f rest).
 
 Lemma gin_rn f l : (forall k, P (f k) = true) -> Forall gin (map (rn_goal f) l).
 Proof.
@@ -63,47 +65,121 @@ Proof.
   split; [apply good_app; auto|]. rewrite fP_app, (fP_good (good_app Gn G)). reflexivity.
 Qed.
 
+(* dereferencing a term of the cursor on  own bindings ++ rest of the heap *)
+Lemma den2_step tr h0 t : good P tr -> closed P h0 -> tin P t ->
+  den2 (tr ++ fP P h0) t = den2 (tr ++ h0) t /\ tin P (den2 (tr ++ h0) t).
+Proof.
+  intros G C Ht.
+  assert (E0 : tr ++ fP P h0 = fP P (tr ++ h0)) by (rewrite fP_app, (fP_good G); reflexivity).
+  assert (C1 : closed P (tr ++ h0)) by (apply closed_app; auto using good_closed).
+  rewrite !den2_den, E0. split; [apply den_filter; auto|apply den_tin; auto].
+Qed.
+
+Lemma callable_tin t nm fa : tin P t -> callable t = Some (nm, fa) -> Forall (tin P) fa.
+Proof.
+  destruct t as [a|z|q|v|g args]; simpl; intros Ht E; inversion E; subst; [constructor|].
+  apply (proj1 (tin_fun P nm fa)). exact Ht.
+Qed.
+
+Lemma retract_list_frame h fr args fs : closed P h -> (forall k, P (fr k) = true) -> Forall (tin P) args ->
+  retract_list (fP P h) fr args fs = retract_list h fr args fs.
+Proof.
+  intros C Hf Ha. induction fs as [|f r IH]; [reflexivity|].
+  cbn [retract_list]. rewrite IH. rewrite !unify_arrays2_eq.
+  destruct (@unify_arrays_frame P UF h args (map (rn fr) (fargs f)) C Ha (lin_rn fr (fargs f) Hf)) as [E _].
+  rewrite E. destruct (unify_arrays UF h args (map (rn fr) (fargs f))); reflexivity.
+Qed.
+
 Variable fresh : nat -> nat.
 Hypothesis Hfresh : forall k, P (fresh k) = true.
+Variable newid : nat -> nat.
 
+Definition kgood (r : kres) : Prop :=
+  match r with
+  | KGo m => Forall fgood (mfr m)
+  | KAns tr m => good P tr /\ Forall fgood (mfr m)
+  | _ => True
+  end.
 Definition sgood (r : sres) : Prop :=
-  match r with SAns tr fr _ => good P tr /\ Forall fgood fr | _ => True end.
+  match r with SAns tr m => good P tr /\ Forall fgood (mfr m) | _ => True end.
 
-Lemma search_frame d h0 : closed P h0 -> forall fuel fr names, Forall fgood fr ->
-  search fuel d (fP P h0) fresh fr names = search fuel d h0 fresh fr names
-  /\ sgood (search fuel d h0 fresh fr names).
+Lemma dbstep_frame h0 m b tr cnt t gs r : closed P h0 ->
+  good P tr -> tin P t -> Forall gin gs -> Forall fgood r ->
+  dbstep (fP P h0) fresh newid m b tr cnt t gs r = dbstep h0 fresh newid m b tr cnt t gs r
+  /\ kgood (dbstep h0 fresh newid m b tr cnt t gs r).
 Proof.
-  intros C. induction fuel as [|fuel IH]; intros fr names Hfr; [simpl; auto|].
-  destruct fr as [|f r]; [simpl; auto|].
+  intros C Gt Ht Gg Hr. unfold dbstep.
+  destruct (den2_step Gt C Ht) as [E D]. rewrite E.
+  assert (G1 : Forall fgood (FGoals tr cnt gs :: r)) by (constructor; auto; constructor; auto).
+  destruct b as [app| |].
+  - destruct (callable (den2 (tr ++ h0) t)) as [[nm fa]|]; cbn [kgood mfr]; auto.
+  - destruct (callable (den2 (tr ++ h0) t)) as [[nm fa]|] eqn:Ec; cbn [kgood mfr]; auto.
+    split; [reflexivity|]. apply Forall_app. split; auto.
+    apply Forall_forall. intros x Hx. apply in_map_iff in Hx as [y [<- _]].
+    constructor; auto. eapply callable_tin; eauto.
+  - destruct (callable (den2 (tr ++ h0) t)) as [[nm fa]|] eqn:Ec; cbn [kgood mfr]; auto.
+    assert (E0 : tr ++ fP P h0 = fP P (tr ++ h0)) by (rewrite fP_app, (fP_good Gt); reflexivity).
+    assert (C1 : closed P (tr ++ h0)) by (apply closed_app; auto using good_closed).
+    rewrite E0, retract_list_frame; auto; [|eapply callable_tin; eauto].
+    destruct (retract_list (tr ++ h0) (fun i => fresh (cnt + i)) fa (find_facts (mdb m) nm (length fa)));
+      cbn [kgood mfr]; auto.
+Qed.
+
+Lemma sstep_frame h0 m : closed P h0 -> Forall fgood (mfr m) ->
+  sstep (fP P h0) fresh newid m = sstep h0 fresh newid m /\ kgood (sstep h0 fresh newid m).
+Proof.
+  intros C Hfr. unfold sstep. destruct (mfr m) as [|f r]; [simpl; auto|].
   pose proof (Forall_inv Hfr) as Hf. pose proof (Forall_inv_tail Hfr) as Hr.
-  destruct f as [tr cnt gs|tr cnt args f gs|tr cnt fn args gs|tr cnt args cl gs];
-    inversion Hf as [tr0 cnt0 gs0 Gt Gg|tr0 cnt0 a0 f0 r0 Gt Ga Gg|tr0 cnt0 n0 a0 r0 Gt Ga Gg|tr0 cnt0 a0 c0 r0 Gt Ga Gg]; subst.
+  destruct f as [tr cnt gs|tr cnt args f gs|tr cnt fn args gs|tr cnt args cl gs|tr cnt nm args f gs];
+    inversion Hf as [tr0 cnt0 gs0 Gt Gg|tr0 cnt0 a0 f0 r0 Gt Ga Gg|tr0 cnt0 n0 a0 r0 Gt Ga Gg|tr0 cnt0 a0 c0 r0 Gt Ga Gg
+                     |tr0 cnt0 n0 a0 f0 r0 Gt Ga Gg]; subst.
   - destruct gs as [|[nm args] gs]; [simpl; auto|].
-    cbn [search]. apply IH. apply Forall_app. split.
+    split; [reflexivity|]. cbn [kgood mfr]. apply Forall_app. split.
     + apply Forall_forall. intros x Hx. apply in_map_iff in Hx as [y [<- _]].
       constructor; auto; [exact (Forall_inv Gg)|exact (Forall_inv_tail Gg)].
     + constructor; auto. constructor; auto; [exact (Forall_inv Gg)|exact (Forall_inv_tail Gg)].
-  - cbn [search].
-    assert (Hy : Forall (tin P) (map (rn (fun i => fresh (cnt + i))) f)) by (apply lin_rn; auto).
+  - assert (Hy : Forall (tin P) (map (rn (fun i => fresh (cnt + i))) f)) by (apply lin_rn; auto).
     pose proof (ua_step Gt C Ga Hy) as St.
     destruct (unify_arrays2 UF (tr ++ h0) args (map (rn (fun i => fresh (cnt + i))) f)) as [s'| | |] eqn:E.
-    + destruct St as [tr' [-> [Gt' ->]]]. rewrite !strip_app. apply IH. constructor; auto. constructor; auto.
-    + rewrite St. apply IH; auto.
+    + destruct St as [tr' [-> [Gt' ->]]]. rewrite !strip_app. split; [reflexivity|].
+      cbn [kgood mfr]. constructor; auto. constructor; auto.
     + rewrite St. simpl; auto.
     + rewrite St. simpl; auto.
-  - cbn [search]. destruct fn as [ds|]; [|apply IH; auto].
-    destruct (clauses_of ds) as [cls|]; [|simpl; auto].
-    apply IH. apply Forall_app. split; auto.
-    apply Forall_forall. intros x Hx. apply in_map_iff in Hx as [y [<- _]]. constructor; auto.
-  - cbn [search].
-    assert (Hy : Forall (tin P) (fst (rn_clause (fun i => fresh (cnt + i)) cl))) by (apply lin_rn; auto).
+    + rewrite St. simpl; auto.
+  - destruct fn as [ds|]; [|simpl; auto].
+    destruct (db_builtin ds) as [b|].
+    + destruct args as [|t [|t2 args]]; [simpl; auto| |simpl; auto].
+      apply dbstep_frame; auto. exact (Forall_inv Ga).
+    + destruct (clauses_of ds) as [cls|]; [|simpl; auto].
+      split; [reflexivity|]. cbn [kgood mfr]. apply Forall_app. split; auto.
+      apply Forall_forall. intros x Hx. apply in_map_iff in Hx as [y [<- _]]. constructor; auto.
+  - assert (Hy : Forall (tin P) (fst (rn_clause (fun i => fresh (cnt + i)) cl))) by (apply lin_rn; auto).
     pose proof (ua_step Gt C Ga Hy) as St.
     destruct (unify_arrays2 UF (tr ++ h0) args (fst (rn_clause (fun i => fresh (cnt + i)) cl))) as [s'| | |] eqn:E.
-    + destruct St as [tr' [-> [Gt' ->]]]. rewrite !strip_app. apply IH. constructor; auto. constructor; auto.
+    + destruct St as [tr' [-> [Gt' ->]]]. rewrite !strip_app. split; [reflexivity|].
+      cbn [kgood mfr]. constructor; auto. constructor; auto.
       apply Forall_app. split; auto. apply gin_rn; auto.
-    + rewrite St. apply IH; auto.
     + rewrite St. simpl; auto.
     + rewrite St. simpl; auto.
+    + rewrite St. simpl; auto.
+  - assert (Hy : Forall (tin P) (map (rn (fun i => fresh (cnt + i))) (fargs f))) by (apply lin_rn; auto).
+    pose proof (ua_step Gt C Ga Hy) as St.
+    destruct (unify_arrays2 UF (tr ++ h0) args (map (rn (fun i => fresh (cnt + i))) (fargs f))) as [s'| | |] eqn:E.
+    + destruct St as [tr' [-> [Gt' ->]]]. rewrite !strip_app. split; [reflexivity|].
+      destruct (has_id (fid f) (find_facts (mdb m) nm (length args))); cbn [kgood mfr]; auto.
+      constructor; auto. constructor; auto.
+    + rewrite St. simpl; auto.
+    + rewrite St. simpl; auto.
+    + rewrite St. simpl; auto.
+Qed.
+
+Lemma search_frame h0 : closed P h0 -> forall fuel m, Forall fgood (mfr m) ->
+  search fuel (fP P h0) fresh newid m = search fuel h0 fresh newid m
+  /\ sgood (search fuel h0 fresh newid m).
+Proof.
+  intros C. induction fuel as [|fuel IH]; intros m Hfr; [simpl; auto|].
+  cbn [search]. destruct (sstep_frame m C Hfr) as [E G]. rewrite E.
+  destruct (sstep h0 fresh newid m) as [m'|tr m'| |k m']; cbn [kgood] in G; simpl; auto.
 Qed.
 
 End CF.
@@ -160,16 +236,16 @@ Proof.
   intros [v t] H. simpl in *. apply negb_true_iff in H. rewrite (good_notin G H). reflexivity.
 Qed.
 
-Lemma cnext_frame fuel d h c c' h' r names : closed P h -> cgood c ->
-  cnext fuel d fresh h c = (c', h', r, names) ->
-  cnext fuel d fresh (fP P h) c = (c', fP P h', r, names)
+Lemma cnext_frame fuel d h c c' h' r lg d' : closed P h -> cgood c ->
+  cnext fuel d fresh h c = (c', h', r, lg, d') ->
+  cnext fuel d fresh (fP P h) c = (c', fP P h', r, lg, d')
   /\ fN P h' = fN P h /\ cgood c' /\ closed P h' /\ newP h h'.
 Proof.
   intros C [Ga [Gf Gt]]. unfold cnext. rewrite unbind_fP.
   pose proof (unbind_closed (ctrail c) C) as C0.
   pose proof (unbind_fN h Gt) as EN.
-  destruct (@search_frame P fresh Hfresh d _ C0 fuel _ [] Gf) as [E S]. rewrite E.
-  destruct (search fuel d (unbind (ctrail c) h) fresh (cfr c) []) as [tr fr nm|nm|k]; simpl in S;
+  destruct (@search_frame P fresh Hfresh (qfid (cown c)) _ C0 fuel (mkms d (cnf c) (cfr c) []) Gf) as [E S]. rewrite E.
+  destruct (search fuel (unbind (ctrail c) h) fresh (qfid (cown c)) (mkms d (cnf c) (cfr c) [])) as [tr m|m|k m]; simpl in S;
     intros Q; inversion Q; subst; clear Q.
   - destruct S as [Gtr Gfr].
     assert (C1 : closed P (tr ++ unbind (ctrail c) h)) by (apply closed_app; auto using good_closed).
@@ -206,25 +282,6 @@ Qed.
 
 End CN.
 
-(* ---------------------------------------------------------------- two cursors of one engine *)
-(* advance one cursor n times on its own *)
-Fixpoint run1 (fuel : nat) (d : db) (fresh : nat -> nat) (h : store) (c : cursor) (n : nat) : list cres :=
-  match n with
-  | O => []
-  | S n => let '(c', h', r, _) := cnext fuel d fresh h c in r :: run1 fuel d fresh h' c' n
-  end.
-(* advance two cursors over the same heap as the schedule says (true: the first one) *)
-Fixpoint run2 (fuel : nat) (d : db) (f1 f2 : nat -> nat) (h : store) (c1 c2 : cursor) (sched : list bool)
-  : list cres * list cres :=
-  match sched with
-  | [] => ([], [])
-  | true :: s => let '(c1', h', r, _) := cnext fuel d f1 h c1 in
-                 let '(o1, o2) := run2 fuel d f1 f2 h' c1' c2 s in (r :: o1, o2)
-  | false :: s => let '(c2', h', r, _) := cnext fuel d f2 h c2 in
-                  let '(o1, o2) := run2 fuel d f1 f2 h' c1 c2' s in (o1, r :: o2)
-  end.
-Definition times (b : bool) (sched : list bool) : nat := length (filter (Bool.eqb b) sched).
-
 Lemma closed_other (P1 P2 : nat -> bool) h h' :
   (forall v, P1 v = true -> P2 v = false) -> closed P2 h -> newP P1 h h' -> closed P2 h'.
 Proof.
@@ -232,25 +289,3 @@ Proof.
   rewrite (D v H') in Pv. discriminate.
 Qed.
 
-Theorem same_engine_disjoint (P1 P2 : nat -> bool) (f1 f2 : nat -> nat) :
-  (forall v, P1 v = true -> P2 v = false) ->
-  (forall k, P1 (f1 k) = true) -> (forall k, P2 (f2 k) = true) ->
-  forall fuel d sched h c1 c2,
-  closed P1 h -> closed P2 h -> cgood P1 c1 -> cgood P2 c2 ->
-  run2 fuel d f1 f2 h c1 c2 sched =
-  (run1 fuel d f1 (fP P1 h) c1 (times true sched), run1 fuel d f2 (fP P2 h) c2 (times false sched)).
-Proof.
-  intros D12 F1 F2 fuel d.
-  assert (D21 : forall v, P2 v = true -> P1 v = false).
-  { intros v H. destruct (P1 v) eqn:E; auto. rewrite (D12 v E) in H. discriminate. }
-  induction sched as [|b s IH]; intros h c1 c2 C1 C2 G1 G2; [reflexivity|].
-  destruct b; cbn [run2 times filter Bool.eqb length].
-  - destruct (cnext fuel d f1 h c1) as [[[c1' h'] r] nm] eqn:E.
-    destruct (@cnext_frame P1 f1 F1 fuel d _ _ _ _ _ _ C1 G1 E) as [A [EN [G1' [C1' N]]]].
-    rewrite (IH h' c1' c2 C1' (@closed_other P1 P2 h h' D12 C2 N) G1' G2).
-    cbn [run1]. rewrite A. rewrite (@fP_disjoint P1 P2 h h' D21 EN). reflexivity.
-  - destruct (cnext fuel d f2 h c2) as [[[c2' h'] r] nm] eqn:E.
-    destruct (@cnext_frame P2 f2 F2 fuel d _ _ _ _ _ _ C2 G2 E) as [A [EN [G2' [C2' N]]]].
-    rewrite (IH h' c1 c2' (@closed_other P2 P1 h h' D21 C1 N) C2' G1 G2').
-    cbn [run1]. rewrite A. rewrite (@fP_disjoint P2 P1 h h' D12 EN). reflexivity.
-Qed.
